@@ -52,7 +52,8 @@ class SymDT:
 
     def __pysym_isinstance__(self, types):
         types = types if isinstance(types, tuple) else (types,)
-        return any(issubclass(dt.datetime, t) for t in types if isinstance(t, type))
+        me = STIXdatetime if hasattr(self, "precision") else dt.datetime      # a value carrying metadata models a STIXdatetime
+        return any(issubclass(me, t) for t in types if isinstance(t, type))
 
     def utcoffset(self):
         return dt.timedelta(0) if self.tzinfo is not None else None
@@ -661,3 +662,81 @@ def job_order(tier, seed):
             return {"verdict": "INCONCLUSIVE", "detail": "truncation lemma not unsat"}
     return {"verdict": "HOLDS", "paths": len(SETTINGS), "queries": q, "decisions": q, "solver_s": round(time.time() - t0, 3),
             "reached": True, "samples": [{"query": "a <= b and not(trunc(a) <= trunc(b))", "result": "unsat", "settings": len(SETTINGS)}]}
+
+
+def replay_property_clean(Y, M, D, h, m, s, us, aware, in_meta, pname, cname):
+    """real TimestampProperty(precision, constraint).clean on a datetime / STIXdatetime that may carry OTHER precision metadata"""
+    from stix2.properties import TimestampProperty
+    p, c = Precision[pname], PrecisionConstraint[cname]
+    tz = pytz.utc if aware else None
+    if in_meta is None:
+        v = dt.datetime(Y, M, D, h, m, s, us, tz)
+    else:
+        v = STIXdatetime(Y, M, D, h, m, s, us, tz, precision=Precision[in_meta[0]], precision_constraint=PrecisionConstraint[in_meta[1]])
+    out, _ = TimestampProperty(precision=pname.lower(), precision_constraint=cname.lower()).clean(v)
+    exp_us = 0 if (p == Precision.SECOND and c == PrecisionConstraint.EXACT) else \
+        us - us % 1000 if (p == Precision.MILLISECOND and c == PrecisionConstraint.EXACT) else us
+    return out.precision == p and out.precision_constraint == c and out.microsecond == exp_us and \
+        utils.format_datetime(out) == oracle_text_py(Y, M, D, h, m, s, exp_us, p, c)
+
+
+def job_property_clean(tier, seed):
+    """C15.prop: TimestampProperty.clean(value) for datetime values -- plain, or already carrying ANY other precision metadata (values that
+    went through another timestamp property) -- yields the instant truncated to THIS property's precision, tagged with this property's
+    settings, and its text is canonical for them."""
+    from stix2.properties import TimestampProperty
+    t0 = time.time()
+    I = Interp(STUBS)
+    eng = Engine()
+    bad, cands, samples, asserting = 0, [], [], 0
+    metas = [None] + SETTINGS
+    try:
+        for p, c in SETTINGS:
+            prop = TimestampProperty(precision=p.name.lower(), precision_constraint=c.name.lower())
+            for meta in metas:
+                for aware in (False, True):
+                    def body(eng):
+                        f = fresh(eng)
+                        v = SymDT(f, aware, *(meta or (None, None)))
+                        out = I.call_function(TimestampProperty.clean, [prop, v], {})
+                        x = out[0]
+                        return f, x, I.call_function(utils.format_datetime, [x], {})
+                    for pc, (kind, val) in eng.explore(body):
+                        asserting += 1
+                        if kind != "return":
+                            bad += 1
+                            cands.append({"call": None, "desc": "clean raised %r" % (val,)})
+                            continue
+                        f, x, text = val
+                        us6 = _dg(f["us"], 6)
+                        if p == Precision.SECOND and c == PrecisionConstraint.EXACT:
+                            us6 = [48] * 6
+                        elif p == Precision.MILLISECOND and c == PrecisionConstraint.EXACT:
+                            us6 = us6[:3] + [48] * 3
+                        fx = dict(f)
+                        fx["us"] = sint_from_digits(us6)
+                        meta_ok = getattr(x, "precision", None) == p and getattr(x, "precision_constraint", None) == c
+                        post = z3.And(z3.BoolVal(bool(meta_ok)), z3.And([lift(x.f[k]) == lift(fx[k]) for k in FIELDS]),
+                                      text_matches_oracle(text, fx, p, c))
+                        s = z3.Solver()
+                        s.add(*pc)
+                        s.add(z3.Not(post))
+                        eng.queries += 1
+                        ts = time.time()
+                        r = str(s.check())
+                        eng.solver_time += time.time() - ts
+                        if r == "unsat":
+                            if len(samples) < 3:
+                                samples.append({"property": [p.name, c.name], "input_metadata": [m.name for m in meta] if meta else None,
+                                                "query": "pc and not(truncated to property precision, tagged, canonical text)", "result": "unsat"})
+                            continue
+                        if r != "sat":
+                            return _result(eng, I, bad, cands, samples, 0, asserting, t0, inconclusive="solver returned %s" % r)
+                        bad += 1
+                        mf = model_fields(s.model(), f)
+                        cands.append({"call": "replay_property_clean(%d, %d, %d, %d, %d, %d, %d, %r, %r, %r, %r)" % (
+                            mf["Y"], mf["M"], mf["D"], mf["h"], mf["m"], mf["s"], mf["us"], aware,
+                            [m.name for m in meta] if meta else None, p.name, c.name), "desc": "TimestampProperty.clean keeps foreign precision"})
+    except Unsupported as e:
+        return _result(eng, I, bad, cands, samples, 0, asserting, t0, inconclusive="translator does not cover: %s" % e)
+    return _result(eng, I, bad, _dedupe(cands), samples, 0, asserting, t0)
